@@ -838,7 +838,9 @@ def pred_factory(case, out):
     K = 0.5 * (1.0 + Xt @ Xt.T / p)
     for enc, o in out.items():
         tag = "%s.%s" % (which, enc)
-        if "exc" in o: bad.append("%s factory raised %s: %s" % (tag, o["exc"], o["msg"])); continue
+        if "exc" in o:
+            if which in ("ohv", "opv", "gb") and "greater than number of available markers" in o["msg"]: continue    # documented precondition of the block assignment
+            bad.append("%s factory raised %s: %s" % (tag, o["exc"], o["msg"])); continue
         if o.get("skip"): continue
         def chk(key, want, what, tol=2.0 ** -30):
             if not _near(_unhex(o[key]), want, tol): bad.append("%s: %s != %s of the population in taxon order" % (tag, key, what))
